@@ -241,4 +241,61 @@ theorem tree_vrps_exact (cat : Catalog) (now : Nat) (tree : Node) (fuel : Nat)
   exact walk_exact (pointVrps cat) Node.ownVrps cat tree hd (fun n hn => (hok n hn).childrenExact)
     (fun n hn => sameMembers_iff.mp (hok n hn).vrps) fuel tree (Node.mem_nodes_self tree) hfuel
 
+/-- … likewise the ASPA definitions … -/
+theorem tree_aspas_exact (cat : Catalog) (now : Nat) (tree : Node) (fuel : Nat)
+    (hok : ∀ n ∈ tree.nodes, NodeOk cat now n) (hd : tree.subjects.Nodup) (hfuel : tree.depth ≤ fuel) :
+    sameMembers (treeAspas cat tree.repo fuel tree.ca) tree.expectedAspas = true := by
+  rw [sameMembers_iff, treeAspas_eq_walk]
+  exact walk_exact (pointAspas cat) Node.ownAspas cat tree hd (fun n hn => (hok n hn).childrenExact)
+    (fun n hn => sameMembers_iff.mp (hok n hn).aspas) fuel tree (Node.mem_nodes_self tree) hfuel
+
+/-- … and the router keys. -/
+theorem tree_router_keys_exact (cat : Catalog) (now : Nat) (tree : Node) (fuel : Nat)
+    (hok : ∀ n ∈ tree.nodes, NodeOk cat now n) (hd : tree.subjects.Nodup) (hfuel : tree.depth ≤ fuel) :
+    sameMembers (treeRouterKeys cat tree.repo fuel tree.ca) tree.expectedRouterKeys = true := by
+  rw [sameMembers_iff, treeRouterKeys_eq_walk]
+  exact walk_exact (pointRouterKeys cat) Node.ownRouterKeys cat tree hd (fun n hn => (hok n hn).childrenExact)
+    (fun n hn => sameMembers_iff.mp (hok n hn).routerKeys) fuel tree (Node.mem_nodes_self tree) hfuel
+
+/-- Non-vacuity of the hypotheses of `tree_valid` … `tree_router_keys_exact`: the three-level
+hierarchy `Example.tree` (trust anchor → CA → child CA; ROAs at two levels, one ASPA, one router
+key, one configured-but-uncovered route and ASPA) has three nodes, each locally fine, with distinct
+keys and depth 3. -/
+example : Example.tree.nodes.length = 3 ∧ (∀ n ∈ Example.tree.nodes, NodeOk Example.cat 1000 n) ∧
+    Example.tree.subjects.Nodup ∧ Example.tree.depth ≤ 3 := by
+  refine ⟨by decide, ?_, by decide, by decide⟩
+  have h : Example.tree.nodes.all (nodeOk Example.cat 1000) = true := by decide
+  intro n hn
+  exact nodeOk_iff.mp (List.all_eq_true.mp h n hn)
+
+/-- … and the walks, computed, are what the theorems say: valid, and exactly the expectation
+(the uncovered route `p3` and the ASPA for the AS not held are configured but not expected and not
+found). -/
+example :
+    TreeValid Example.cat Example.tree.repo 1000 3 Example.tree.ca = true ∧
+    treeVrps Example.cat Example.tree.repo 3 Example.tree.ca = [Example.p2, Example.p1] ∧
+    Example.tree.expectedVrps = [Example.p2, Example.p1] ∧
+    treeAspas Example.cat Example.tree.repo 3 Example.tree.ca = [Example.aspa1] ∧
+    Example.tree.expectedAspas = [Example.aspa1] ∧
+    treeRouterKeys Example.cat Example.tree.repo 3 Example.tree.ca = [Example.rk1] ∧
+    Example.tree.expectedRouterKeys = [Example.rk1] ∧
+    -- too little fuel for the depth: not valid
+    TreeValid Example.cat Example.tree.repo 1000 2 Example.tree.ca = false := by
+  decide
+
+/-- Negative example: one file present but unlisted at the grandchild's publication point
+(`Example.badTree`) – the walk from the trust anchor fails; computed, and by `tree_invalid`. -/
+example : TreeValid Example.cat Example.badTree.repo 1000 3 Example.badTree.ca = false := by decide
+
+example (fuel : Nat) : TreeValid Example.cat Example.badTree.repo 1000 fuel Example.badTree.ca = false := by
+  have hmid : Example.badMid ∈ Example.badTree.nodes :=
+    Node.child_mem_nodes (n := Example.badTree) (List.Mem.head _)
+  have hbad : Example.badChild ∈ Example.badTree.nodes :=
+    Node.child_mem_of_mem (n := Example.badMid) hmid (List.Mem.head _)
+  refine tree_invalid Example.cat 1000 Example.badTree fuel (by decide) ?_ Example.badChild hbad (by decide)
+  have h : Example.badTree.nodes.all (fun n => n.children.all fun ch =>
+      decide (ch.ca ∈ childCerts Example.cat n.files n.ca)) = true := by decide
+  intro n hn ch hch
+  exact of_decide_eq_true (List.all_eq_true.mp (List.all_eq_true.mp h n hn) ch hch)
+
 end KM.Props.C01
